@@ -317,7 +317,7 @@ def tsan_arm(prop, tier, seed, cov, violations, inconcl, notes, arms_used):
     cov['rule'] += ' | concurrency arm: every entry point called by 8 threads at the same time under ThreadSanitizer (shared and private arguments), results compared with a single-threaded reference'
 
 # ------------------------------------------------------------------------------------------------ consteval arm
-CE_MODES_QUICK = [('g++', 'c++17', True), ('clang++', 'c++20', False), ('g++', 'c++2b', False)]
+CE_MODES_QUICK = [('g++', 'c++17', True), ('clang++', 'c++20', False), ('g++', 'c++2b', False), ('clang++', 'c++17', False)]
 CE_MODES_THOROUGH = [(c, s, a) for c in ('g++', 'clang++') for (s, a) in (('c++17', True), ('c++17', False), ('c++20', False), ('c++2b', False))]
 SQRT_DEP = {'sqrt', 'hypot', 'asin', 'acos', 'sqrt_abacus'}
 
@@ -339,9 +339,25 @@ def consteval_arm(prop, tier, seed, cov, violations, inconcl, notes, arms_used, 
     os.makedirs(wd)
     nchunks = V.NCPU
     jobs = []
+
+    def reported_flag(mode):
+        """what the library itself reports as sqrt_constexpr_available in this mode (the claim that is then held against it)"""
+        cc, std, abacus = mode
+        src = os.path.join(wd, f"flag-{'gcc' if cc == 'g++' else 'clang'}-{std}{'-abacus' if abacus else ''}.cc")
+        with open(src, 'w') as f:
+            f.write('#include <fixedmath/limits.h>\n#include <fixedmath/math.h>\nstatic_assert(!fixedmath::sqrt_constexpr_available, "reported");\n')
+        cmd = [cc, f'-std={std}', '-fsyntax-only', '-w', f'-D{V.HOOK_DEFINE}=1', f'-I{V.LIB_INC}'] + (['-DFIXEDMATH_ENABLE_SQRT_ABACUS_ALGO'] if abacus else [])
+        r = V.run(cmd + [src])
+        if r.returncode == 0:
+            return False
+        if 'reported' in r.stderr or 'static assertion' in r.stderr or 'static_assert' in r.stderr:
+            return True
+        raise V.Inconclusive(f'constant-evaluator arm: cannot read sqrt_constexpr_available in {mode}: {r.stderr[-300:]}')
+    with ThreadPoolExecutor(len(modes)) as ex:
+        flags = dict(zip(modes, ex.map(reported_flag, modes)))
     for (cc, std, abacus) in modes:
         mname = f"{'gcc' if cc == 'g++' else 'clang'}-{std}{'-abacus' if abacus else ''}"
-        sqrt_ok = abacus or std != 'c++17'   # sqrt_constexpr_available
+        sqrt_ok = flags[(cc, std, abacus)]   # sqrt_constexpr_available as reported by the library in this mode
         mp = [p for p in pts if sqrt_ok or p[0] not in ('sqrt', 'hypot', 'asin', 'acos')]
         for ch in range(nchunks):
             sub = mp[ch::nchunks]
@@ -450,6 +466,10 @@ def consteval_arm(prop, tier, seed, cov, violations, inconcl, notes, arms_used, 
                 c['witnesses'].append({'mode': mname, 'entry': p[0], 'a': p[1], 'b': p[2], 'runtime_value': p[3], 'diagnostic': msg[:200]})
     for m in ce_cov.values():
         m['entries'] = len(m['entries'])
+    for (cc, std, abacus), fl in flags.items():
+        mname = f"{'gcc' if cc == 'g++' else 'clang'}-{std}{'-abacus' if abacus else ''}"
+        if mname in ce_cov:
+            ce_cov[mname]['sqrt_constexpr_available_reported_by_library'] = fl
     for c in classes.values():
         violations.append(c)
     cov['constant_evaluator'] = ce_cov
